@@ -1519,4 +1519,186 @@ Section Proofs.
     apply In_lookup; auto. apply I.
   Qed.
 
+  (* ================= the same laws, stated on the model's operations ================= *)
+  Definition comparable (p : @operand item) : Prop :=
+    match p with PList _ => False | _ => True end.
+
+  Theorem reachable_inv enf xs d ops :
+    from_iterable enf xs = Ok d -> Forall wf_op ops ->
+    let d' := snd (run enf d ops) in
+    NoDup (keys d') /\ Forall (fun p => fst p = key (snd p)) d' /\
+    forallb valid (vals d') = true.
+  Proof.
+    intros C W. destruct (constructed_ok _ _ _ C) as [I T].
+    destruct (run_refines enf ops d I T W) as (_ & [N F] & T' & _). auto.
+  Qed.
+
+  Theorem T_sub enf d p eb b : Inv d -> TInv d -> omap enf d p = Ok (eb, b) ->
+    loose eb b (vals d) ->
+    exists r, step enf d (OSub p) = (Ok (RNew r), d) /\
+              keys r = filter (fun k => negb (has k b)) (keys d).
+  Proof.
+    intros I T O L. rewrite step_refines by (auto; exact Logic.I). simpl.
+    unfold Spec.spec_sub. rewrite O. eexists. split; [reflexivity|]. now apply alg_sub.
+  Qed.
+
+  Theorem T_and enf d p r d' : Inv d -> TInv d -> loose enf d (oitems d p) ->
+    (step enf d (OAnd p) = (Ok (RNew r), d') \/ step enf d (ORAnd p) = (Ok (RNew r), d')) ->
+    forall k, In k (keys r) <-> In k (keys d) /\ In k (map key (oitems d p)).
+  Proof.
+    intros I T L H.
+    assert (F : fresh enf (filter (fun x => member enf d (AItem x)) (oitems d p)) = Ok r).
+    { destruct H as [H|H]; rewrite step_refines in H by (auto; exact Logic.I); simpl in H;
+        destruct (fresh enf _); simpl in H; congruence. }
+    eapply alg_and; eauto.
+  Qed.
+
+  Theorem T_or enf d p r d' : Inv d -> TInv d ->
+    (step enf d (OOr p) = (Ok (RNew r), d') \/ step enf d (OROr p) = (Ok (RNew r), d')) ->
+    forall k, In k (keys r) <-> In k (keys d) \/ In k (map key (oitems d p)).
+  Proof.
+    intros I T H.
+    assert (F : fresh enf (vals d ++ oitems d p) = Ok r).
+    { destruct H as [H|H]; rewrite step_refines in H by (auto; exact Logic.I); simpl in H;
+        destruct (fresh enf _); simpl in H; congruence. }
+    eapply alg_or; eauto.
+  Qed.
+
+  Theorem T_rsub enf d p eb b r d' : Inv d -> TInv d -> omap enf d p = Ok (eb, b) ->
+    loose enf d (oitems d p) -> step enf d (ORSub p) = (Ok (RNew r), d') ->
+    forall k, In k (keys r) <-> In k (keys b) /\ ~ In k (keys d).
+  Proof.
+    intros I T O L H. rewrite step_refines in H by (auto; exact Logic.I). simpl in H.
+    destruct (spec_rsub enf d p) as [m|] eqn:F; simpl in H; [|discriminate].
+    assert (m = r) by congruence. subst. eapply alg_rsub; eauto.
+  Qed.
+
+  Theorem T_xor enf d p eb b r d' : Inv d -> TInv d -> omap enf d p = Ok (eb, b) ->
+    loose eb b (vals d) -> loose enf d (oitems d p) ->
+    (step enf d (OXor p) = (Ok (RNew r), d') \/ step enf d (ORXor p) = (Ok (RNew r), d')) ->
+    forall k, In k (keys r) <->
+              (In k (keys d) /\ ~ In k (keys b)) \/ (In k (keys b) /\ ~ In k (keys d)).
+  Proof.
+    intros I T O Lb Ld H.
+    assert (F : spec_xor enf d p = Ok r).
+    { destruct H as [H|H]; rewrite step_refines in H by (auto; exact Logic.I); simpl in H;
+        destruct (spec_xor enf d p); simpl in H; congruence. }
+    eapply alg_xor; eauto.
+  Qed.
+
+  Lemma spec_cmp_value enf d p eb b f : comparable p -> omap enf d p = Ok (eb, b) ->
+    spec_cmp key keqb ieqb valid enf d p f = Ok (RBool (f eb b)).
+  Proof. intros C O. unfold spec_cmp. destruct p; try contradiction; now rewrite O. Qed.
+
+  Theorem T_le enf d p eb b : Inv d -> TInv d -> comparable p -> omap enf d p = Ok (eb, b) ->
+    loose eb b (vals d) ->
+    exists t, step enf d (OLe p) = (Ok (RBool t), d) /\ (t = true <-> incl (keys d) (keys b)).
+  Proof.
+    intros I T C O L. rewrite step_refines by (auto; exact Logic.I). simpl.
+    rewrite (spec_cmp_value _ _ _ _ _ _ C O). eexists. split; [reflexivity|]. now apply alg_subset.
+  Qed.
+
+  Theorem T_lt enf d p eb b : Inv d -> TInv d -> comparable p -> omap enf d p = Ok (eb, b) ->
+    loose eb b (vals d) ->
+    exists t, step enf d (OLt p) = (Ok (RBool t), d) /\
+              (t = true <-> incl (keys d) (keys b) /\ (length d < length b)%nat).
+  Proof.
+    intros I T C O L. rewrite step_refines by (auto; exact Logic.I). simpl.
+    rewrite (spec_cmp_value _ _ _ _ _ _ C O). eexists. split; [reflexivity|].
+    rewrite andb_true_iff, (alg_subset _ _ _ I L). unfold zlen. split; intros [H1 H2]; split; auto; lia.
+  Qed.
+
+  Theorem T_ge enf d p eb b : Inv d -> TInv d -> comparable p -> omap enf d p = Ok (eb, b) ->
+    loose enf d (vals b) ->
+    exists t, step enf d (OGe p) = (Ok (RBool t), d) /\ (t = true <-> incl (keys b) (keys d)).
+  Proof.
+    intros I T C O L. rewrite step_refines by (auto; exact Logic.I). simpl.
+    rewrite (spec_cmp_value _ _ _ _ _ _ C O). eexists. split; [reflexivity|].
+    apply alg_subset; auto. eapply omap_inv; eauto.
+  Qed.
+
+  Theorem T_gt enf d p eb b : Inv d -> TInv d -> comparable p -> omap enf d p = Ok (eb, b) ->
+    loose enf d (vals b) ->
+    exists t, step enf d (OGt p) = (Ok (RBool t), d) /\
+              (t = true <-> incl (keys b) (keys d) /\ (length b < length d)%nat).
+  Proof.
+    intros I T C O L. rewrite step_refines by (auto; exact Logic.I). simpl.
+    rewrite (spec_cmp_value _ _ _ _ _ _ C O). eexists. split; [reflexivity|].
+    rewrite andb_true_iff, (alg_subset enf b d (omap_inv _ _ _ _ _ I T O) L). unfold zlen.
+    split; intros [H1 H2]; split; auto; lia.
+  Qed.
+
+  Theorem T_isdisjoint enf d p : Inv d -> TInv d -> loose enf d (oitems d p) ->
+    exists t, step enf d (OIsDisjoint p) = (Ok (RBool t), d) /\
+              (t = true <-> forall k, In k (map key (oitems d p)) -> ~ In k (keys d)).
+  Proof.
+    intros I T L. rewrite step_refines by (auto; exact Logic.I). simpl.
+    eexists. split; [reflexivity|]. now apply alg_disjoint.
+  Qed.
+
+  Theorem T_eq enf d eb xs : Inv d -> TInv d ->
+    exists t, step enf d (OEq (PKS eb xs)) = (Ok (RBool t), d) /\
+              step enf d (ONe (PKS eb xs)) = (Ok (RBool (negb t)), d) /\
+              (t = true <-> forall k, lookup k d = lookup k (the_map xs)).
+  Proof.
+    intros I T. eexists. split; [reflexivity|]. split; [reflexivity|].
+    simpl. apply alg_eq; auto. apply inv_the_map.
+  Qed.
+
+  Theorem T_ior enf d p r o : Inv d -> TInv d -> step enf d (OIOr p) = (Ok o, r) ->
+    o = RSelf /\ forall k, In k (keys r) <-> In k (keys d) \/ In k (map key (oitems d p)).
+  Proof.
+    intros I T H. rewrite step_refines in H by (auto; exact Logic.I). simpl in H.
+    destruct (add_all enf d (oitems d p)) as [m|] eqn:A; simpl in H; [|discriminate].
+    inversion H; subst. split; auto. eapply alg_ior; eauto.
+  Qed.
+
+  Theorem T_iand enf d p eb b : Inv d -> TInv d -> omap enf d p = Ok (eb, b) ->
+    loose eb b (vals d) ->
+    exists r, step enf d (OIAnd p) = (Ok RSelf, r) /\
+              keys r = filter (fun k => has k b) (keys d).
+  Proof.
+    intros I T O L. rewrite step_refines by (auto; exact Logic.I). simpl. rewrite O. simpl.
+    eexists. split; [reflexivity|]. now apply alg_iand.
+  Qed.
+
+  Theorem T_isub enf d p : Inv d -> TInv d -> loose enf d (oitems d p) ->
+    exists r, step enf d (OISub p) = (Ok RSelf, r) /\
+              keys r = filter (fun k => negb (existsb (fun x => keqb (key x) k) (oitems d p))) (keys d).
+  Proof.
+    intros I T L. rewrite step_refines by (auto; exact Logic.I). simpl.
+    eexists. split; [reflexivity|]. now apply alg_isub.
+  Qed.
+
+  Theorem T_ixor enf d p eb b r o : Inv d -> TInv d -> omap enf d p = Ok (eb, b) ->
+    loose eb b (vals d) -> loose enf d (oitems d p) -> p <> PSelf ->
+    step enf d (OIXor p) = (Ok o, r) ->
+    o = RSelf /\
+    forall k, In k (keys r) <->
+              (In k (keys d) /\ ~ In k (keys b)) \/ (In k (keys b) /\ ~ In k (keys d)).
+  Proof.
+    intros I T O Lb Ld Np H. rewrite step_refines in H by (auto; exact Logic.I). simpl in H.
+    destruct p; try congruence;
+      match type of H with context[spec_xor enf d ?q] => destruct (spec_xor enf d q) as [m|] eqn:X end;
+      simpl in H; try discriminate; inversion H; subst; (split; [reflexivity|]);
+      eapply alg_xor; eauto.
+  Qed.
+
+  Theorem T_ixor_self enf d : Inv d -> TInv d ->
+    step enf d (OIXor PSelf) = (Ok RSelf, []) /\ step enf d (OISub PSelf) = (Ok RSelf, []).
+  Proof.
+    intros I T. split; simpl; unfold ixor, isub; now rewrite clear_spec.
+  Qed.
+
+  Theorem map_laws k k' x (d : dict) :
+    lookup k' (put k x d) = (if keqb k' k then Some x else lookup k' d) /\
+    lookup k' (drop k d) = (if keqb k' k then None else lookup k' d) /\
+    keys (put k x d) = (if has k d then keys d else keys d ++ [k]) /\
+    keys (drop k d) = filter (fun j => negb (keqb k j)) (keys d) /\
+    has k d = (match lookup k d with Some _ => true | None => false end).
+  Proof.
+    split; [apply lookup_put|]. split; [apply lookup_drop|]. split; [apply keys_put|].
+    split; [apply keys_drop|apply has_lookup].
+  Qed.
+
 End Proofs.
